@@ -17,6 +17,7 @@ from ..mutation import Mutations
 from ..termination import Termination
 from ..strshape import Shapes, t_text
 from ..flow import same_expr, atomic_facts
+from .shared import to_list_views
 
 
 def const_str(ctx, fn: FuncInfo, e: ast.AST, depth: int = 0) -> Optional[str]:
@@ -166,10 +167,20 @@ def check(ctx):
     run.floor('C18.terminates', 5)
 
     # ---- C18.map ------------------------------------------------------------------------------------------------------------
-    _map_rule(ctx, to_list)
+    views = to_list_views(ctx)
+    run.stats['to_list_views'] = sorted(views)
+    for label in ('NONE', 'ALL', 'FIRST_ONLY'):
+        if label in views:
+            _map_rule(ctx, views[label])
 
     # ---- C18.blank -----------------------------------------------------------------------------------------------------------
-    _blank_rule(ctx, to_list)
+    n_prefix = 0
+    for label in ('NONE', 'ALL', 'FIRST_ONLY'):
+        if label in views:
+            n_prefix += _blank_rule(ctx, views[label])
+    if n_prefix < 3:
+        run.error('C18.blank', to_list.module.name, to_list.qualname, 'prefix expressions',
+                  f'only {n_prefix} prefixing expressions recognised in the three views of to_list (4 on the reference tree)')
 
     # ---- C18.prefix ----------------------------------------------------------------------------------------------------------
     _prefix_rule(ctx, ind)
@@ -249,8 +260,23 @@ def _map_rule(ctx, to_list: FuncInfo):
                 and r.generators[0].iter.value.id == src and isinstance(r.generators[0].iter.slice, ast.Slice) and \
                 isinstance(r.generators[0].iter.slice.lower, ast.Constant) and r.generators[0].iter.slice.lower.value == 1 \
                 and r.generators[0].iter.slice.upper is None and r.generators[0].iter.slice.step is None
+            if not (head_ok and tail_ok):
+                # `first, *rest = src`  then  [f(first)] + [g(x) for x in rest]
+                unpacks = [a_ for a_ in iter_own_nodes(fn.node) if isinstance(a_, ast.Assign) and len(a_.targets) == 1 and
+                           isinstance(a_.targets[0], (ast.Tuple, ast.List)) and len(a_.targets[0].elts) == 2 and
+                           isinstance(a_.targets[0].elts[0], ast.Name) and isinstance(a_.targets[0].elts[1], ast.Starred) and
+                           isinstance(a_.targets[0].elts[1].value, ast.Name) and isinstance(a_.value, ast.Name) and a_.value.id == src]
+                if len(unpacks) == 1:
+                    first, rest = unpacks[0].targets[0].elts[0].id, unpacks[0].targets[0].elts[1].value.id
+                    stores = [x for x in iter_own_nodes(fn.node) if isinstance(x, ast.Name) and isinstance(x.ctx, ast.Store)
+                              and x.id in (first, rest)]
+                    head_ok = isinstance(l, ast.List) and len(l.elts) == 1 and len(stores) == 2 and any(
+                        isinstance(x, ast.Name) and x.id == first for x in ast.walk(l.elts[0]))
+                    tail_ok = isinstance(r, ast.ListComp) and len(r.generators) == 1 and not r.generators[0].ifs and \
+                        isinstance(r.generators[0].iter, ast.Name) and r.generators[0].iter.id == rest and any(
+                            isinstance(x, ast.Name) and x.id == getattr(r.generators[0].target, 'id', None) for x in ast.walk(r.elt))
             if head_ok and tail_ok:
-                return (True, f'[f({src}[0])] + [g(x) for x in {src}[1:]] preserves order and length') if nonempty \
+                return (True, f'[f(first)] + [g(x) for x in rest] over {src} preserves order and length') if nonempty \
                     else (None, 'head/tail split without a dominating non-empty guard')
             return False, 'head/tail form does not cover the input exactly once (first line / rest)'
         if isinstance(e, ast.Call) and isinstance(e.func, ast.Name) and e.func.id in fn_nested(fn):
@@ -320,9 +346,7 @@ def _blank_rule(ctx, to_list: FuncInfo):
                         'bullet-prefixed line is stripped (no trailing whitespace on blank lines)' if ok else
                         'bullet-prefixed line is not stripped: a blank line becomes "<glyph> " with trailing whitespace',
                         node=js)
-    if n < 3:
-        run.error('C18.blank', to_list.module.name, to_list.qualname, 'prefix expressions',
-                  f'only {n} prefixing expressions recognised in to_list (3 confirmed by hand)')
+    return n
 
 
 def _is_nonblank_test(test: ast.expr, line: str) -> bool:
@@ -353,87 +377,75 @@ def const_is_empty(e: ast.AST) -> bool:
 def _prefix_rule(ctx, ind: ClassInfo):
     """Abstract interpretation of the prefix strings (dznverif.strshape): blank-only continuation prefix, bullet prefix
     starting with the glyph, and - for space indentation - equal widths of both as max-plus terms over
-    n = spaces_count and L = len(glyph)."""
-    run = ctx.run
+    n = spaces_count and L = len(glyph).  Judged on four views of __post_init__ (indentor SPACES / TAB x bullet list given
+    or not), each obtained by specialisation: how the method branches, and which helpers it uses, does not matter."""
+    from ..specialise import residual, TRUTHY
+    run, prog = ctx.run, ctx.prog
     post = ind.methods.get('__post_init__')
     if post is None:
         run.error('C18.prefix', ind.module.name, 'Indentizer', '__post_init__', 'Indentizer.__post_init__ vanished')
         return
-    sh = Shapes(post.node, lambda name: const_str(ctx, post, ast.Name(id=name, ctx=ast.Load())))
     n = 0
-    assigns = [x for x in iter_own_nodes(post.node) if isinstance(x, ast.Assign) and isinstance(x.targets[0], ast.Attribute)
-               and isinstance(x.targets[0].value, ast.Name) and x.targets[0].value.id == 'self']
-    assigns.sort(key=lambda x: (x.lineno, x.col_offset))
-
-    def block_of(node):
-        par = ctx.prog.parent(node)
-        for fld in ('body', 'orelse'):
-            blk = getattr(par, fld, None)
-            if isinstance(blk, list) and node in blk:
-                return blk
-        return []
-
-    space_bullets = []
-    for a in assigns:
-        t = a.targets[0]
-        if t.attr == '_bulletized_indent':
-            n += 1
-            sh.attr_defs.pop('_bulletized_indent', None)
-            v = sh.string(a.value)
-            if v is None:
-                run.error('C18.prefix', post.module.name, post.qualname, a,
-                          f'bullet prefix expression `{ast.unparse(a.value)[:60]}` is outside the modelled string sub-language', node=a)
+    for indentor in ('SPACES', 'TAB'):
+        for bullets in (True, False):
+            asm = {'self.indentor': ast.parse(f'Indentor.{indentor}', mode='eval').body, 'self.bullet_list': TRUTHY if bullets else None}
+            view = prog.add_synthetic(post, residual(prog, post, {}, assume=asm), f'{indentor}-bullets-{bullets}')
+            label = f'{indentor.lower()} indentation, {"with" if bullets else "without"} bullet list'
+            if any(isinstance(x, (ast.If, ast.For, ast.While, ast.Try)) for x in view.node.body):
+                run.error('C18.prefix', post.module.name, post.qualname, label,
+                          f'__post_init__ could not be specialised to a straight line for {label}')
                 continue
-            ok = v.has_glyph and v.starts == 'glyph'
-            run.add('C18.prefix', post.module.name, post.qualname, a, ok,
-                    f'bullet prefix is the configured glyph padded to width {t_text(v.length)}' if ok else
-                    ('bullet prefix does not contain the configured glyph' if not v.has_glyph else
-                     'bullet prefix does not start with the glyph'), node=a)
-            facts = [(ast.unparse(c), p) for c, p in atomic_facts(ctx.flow.path_conditions(a))]
-            if any('SPACES' in tx and p for tx, p in facts):
-                space_bullets.append((a, v))
-    for a in assigns:
-        t = a.targets[0]
-        if t.attr == '_whitespace':
-            n += 1
-            # `self._bulletized_indent` inside the expression refers to the assignment preceding it in the same block
-            blk = block_of(a)
-            prev = [x for x in blk[:blk.index(a)] if x in assigns and x.targets[0].attr == '_bulletized_indent'] if a in blk else []
+            sh = Shapes(view.node, lambda name: const_str(ctx, post, ast.Name(id=name, ctx=ast.Load())))
             sh.attr_defs.pop('_bulletized_indent', None)
-            if prev:
-                sh.attr_defs['_bulletized_indent'] = prev[-1].value
-            v = sh.string(a.value)
-            if v is None:
-                run.error('C18.prefix', post.module.name, post.qualname, a,
-                          f'whitespace prefix expression `{ast.unparse(a.value)[:60]}` is outside the modelled string sub-language', node=a)
-                continue
-            run.add('C18.prefix', post.module.name, post.qualname, a, v.blank,
-                    f'continuation prefix is blank-only, width {t_text(v.length)}' if v.blank else
-                    f'`{ast.unparse(a.value)[:50]}` is not whitespace-only', node=a)
-    for a, bv in space_bullets:
-        blk = block_of(a)
-        later = [x for x in blk[blk.index(a) + 1:] if x in assigns and x.targets[0].attr == '_whitespace'] if a in blk else []
-        if not later:
-            run.add('C18.prefix', post.module.name, post.qualname, 'bullet continuation width', False,
-                    'in bullet mode the whitespace prefix is not re-derived from the bullet prefix: continuation lines '
-                    'misalign when the glyph is wider than the indent')
-            continue
-        sh.attr_defs['_bulletized_indent'] = a.value
-        wv = sh.string(later[-1].value)
-        if wv is None:
-            continue          # reported above
-        same = wv.length == bv.length
-        run.add('C18.prefix', post.module.name, post.qualname, 'bullet continuation width', same,
-                f'continuation prefix and bullet prefix have the same width {t_text(bv.length)} for every spaces_count n and glyph length L'
-                if same else
-                f'continuation prefix is {t_text(wv.length)} wide but the bullet prefix is {t_text(bv.length)} wide '
-                f'(n = spaces_count, L = glyph length): continuation lines misalign with the text after the glyph')
-    if not space_bullets:
-        run.add('C18.prefix', post.module.name, post.qualname, 'bullet continuation width', False,
-                'no bullet prefix is built for space indentation')
+            sh.attr_defs.pop('_whitespace', None)
+            bullet_v = None
+            white_v = None
+            for a in view.node.body:
+                if not (isinstance(a, ast.Assign) and len(a.targets) == 1 and isinstance(a.targets[0], ast.Attribute)
+                        and isinstance(a.targets[0].value, ast.Name) and a.targets[0].value.id == 'self'):
+                    continue
+                attr = a.targets[0].attr
+                if attr not in ('_bulletized_indent', '_whitespace'):
+                    continue
+                n += 1
+                v = sh.string(a.value)
+                if v is None:
+                    run.error('C18.prefix', post.module.name, post.qualname, f'{label}: {attr}',
+                              f'prefix expression `{ast.unparse(a.value)[:60]}` is outside the modelled string sub-language')
+                    sh.attr_defs[attr] = a.value
+                    continue
+                sh.attr_defs[attr] = a.value
+                if attr == '_bulletized_indent':
+                    bullet_v = v
+                else:
+                    white_v = v
+            if white_v is None:
+                run.add('C18.prefix', post.module.name, post.qualname, f'{label}: continuation prefix', False,
+                        f'no whitespace prefix is set for {label}')
+            else:
+                run.add('C18.prefix', post.module.name, post.qualname, f'{label}: continuation prefix', white_v.blank,
+                        f'continuation prefix is blank-only, width {t_text(white_v.length)}' if white_v.blank else
+                        f'the continuation prefix for {label} is not whitespace-only')
+            if bullets:
+                if bullet_v is None:
+                    run.add('C18.prefix', post.module.name, post.qualname, f'{label}: bullet prefix', False,
+                            f'no bullet prefix is built for {label}')
+                    continue
+                ok = bullet_v.has_glyph and bullet_v.starts == 'glyph'
+                run.add('C18.prefix', post.module.name, post.qualname, f'{label}: bullet prefix', ok,
+                        f'bullet prefix is the configured glyph padded to width {t_text(bullet_v.length)}' if ok else
+                        ('bullet prefix does not contain the configured glyph' if not bullet_v.has_glyph else
+                         'bullet prefix does not start with the glyph'))
+                if indentor == 'SPACES' and white_v is not None:
+                    same = white_v.length == bullet_v.length
+                    run.add('C18.prefix', post.module.name, post.qualname, 'bullet continuation width', same,
+                            f'continuation prefix and bullet prefix have the same width {t_text(bullet_v.length)} for every spaces_count n '
+                            f'and glyph length L' if same else
+                            f'continuation prefix is {t_text(white_v.length)} wide but the bullet prefix is {t_text(bullet_v.length)} wide '
+                            f'(n = spaces_count, L = glyph length): continuation lines misalign with the text after the glyph')
     if n < 4:
         run.error('C18.prefix', post.module.name, post.qualname, 'prefix assignments',
-                  f'only {n} prefix assignments recognised (5 confirmed by hand)')
+                  f'only {n} prefix assignments recognised in the four views of __post_init__')
 
 
 def _presence_tests(ctx, classes):
